@@ -11,4 +11,6 @@ func seamPassthrough(on bool)                {}
 func seamCount() (total, small, large int64) { return 0, 0, 0 }
 func seamInfo(k int64) uint32                { return 0 }
 
+func seamSite() (fn, pos string) { return "", "" }
+
 const seamTraceLen = 0
